@@ -1,11 +1,12 @@
 import Driver.Tok
 import BpModel.Casing
 import BpModel.Naming
+import BpModel.Importing
 /- line-protocol handlers of the area "Casing" (C19: name mapping, C13: type references).
    Strings travel as `=<text>` (so that the empty string is the token `=`); they never
    contain spaces. -/
 namespace Drv
-open Bp.Casing Bp.Naming
+open Bp.Casing Bp.Naming Bp.Importing
 
 structure CasingSt where
   dummy : Unit := ()
@@ -41,6 +42,33 @@ def handleCasing (st : CasingSt) (toks : List String) : Option (CasingSt × Stri
   -- guards of the partial theorems of Props/C19.lean
   | ["WF", "alpha2", s] => (strArg s).map fun s => (st, boolOut (allWordsAlpha2 s))
   | ["WF", "classguard", s] => (strArg s).map fun s => (st, boolOut (classNameGuard s))
+  -- C13
+  | ["PARSE", s] => (strArg s).map fun s =>
+      let (p, n) := parseSourceTypeName s
+      (st, strOut p ++ " " ++ strOut n)
+  | ["TYPEREF", pkg, src, unwrap, pyd] => do
+    let pkg ← strArg pkg
+    let src ← strArg src
+    let r := getTypeReference pkg src (unwrap == "1") (pyd == "1")
+    some (st, String.ofList r.ref.render ++ "|" ++ String.ofList r.imp.render)
+  | ["RESOLVE", pkg, src, unwrap, pyd] => do
+    let pkg ← strArg pkg
+    let src ← strArg src
+    let cur := splitPkg pkg
+    let r := getTypeReference pkg src (unwrap == "1") (pyd == "1")
+    let b := r.imp.bind cur
+    let bn := match b with
+      | some (a, _) => strOut a
+      | none => "-"
+    let d := match denote cur b r.ref with
+      | some (.gen p, c) => "gen " ++ strOut (dotted p) ++ " " ++ strOut c
+      | some (.abs p, c) => "abs " ++ strOut (dotted p) ++ " " ++ strOut c
+      | none => "none"
+    some (st, bn ++ " " ++ d)
+  | ["CLASSOF", ty] => (strArg ty).map fun ty => (st, strOut (classOf (splitOn '.' ty)))
+  | ["WF", "pkgok", p] => (strArg p).map fun p => (st, boolOut (pkgOk (splitPkg p)))
+  | ["WF", "typeok", p] => (strArg p).map fun p => (st, boolOut (typeOk (splitPkg p)))
+  | ["WF", "simplepkg", p] => (strArg p).map fun p => (st, boolOut (simplePkg (splitPkg p)))
   | _ => none
 
 end Drv
